@@ -477,6 +477,13 @@ def c14(ctx, rep):
     _k7(ctx, rep, fns, av, k_counts)
     from . import classifier
     classifier.check(ctx, rep, "C14.K3")
+    # the decoder's table reads are discharged by VALID (class == table keys, tested first): clauses of C18 re-run here
+    from .report import Report
+    sub = Report("C18", quiet=True)
+    c18(ctx, sub, with_k3=False)
+    for o in sub.obligations:
+        if o["clause"] in ("C18.valid-alphabet", "C18.validated-before-tables", "C18.refusal", "C18.raises-valueerror-only", "C18.extra-total", "C18.alpha-num-inverse", "C18.gap-decode-guard"):
+            rep.ob("C14.K3." + o["clause"].split(".", 1)[1], o["construct"], o["ok"], o["detail"], o["where"], o.get("witness"), key="C14.K3.%s|%s" % (o["clause"].split(".", 1)[1], o["construct"]))
     # ---- 9 containment
     from .checks_pipe import _per_file_body
     f_files = p.find_function("anonymize_files")
@@ -764,7 +771,7 @@ def _inside_try_valueerror(f, node):
 # ----------------------------------------------------------------------
 # C18
 # ----------------------------------------------------------------------
-def c18(ctx, rep):
+def c18(ctx, rep, with_k3=True):
     p, A, G, folder = ctx.p, ctx.A, ctx.G, ctx.folder
     rep.explanation = (
         "Decided on the folded constant tables plus sibling agreement of encoder and decoder: the alphabet has 65 pairwise distinct characters, ALPHA_NUM is its inverse, EXTRA is total with values 0..3, _fixedc(n) has exactly n alphabet characters; "
@@ -865,6 +872,15 @@ def c18(ctx, rep):
     except (RxError, Exception) as e:
         rep.fail("C18.valid-alphabet", "VALID", "VALID does not parse/fold as expected: %s" % e, loc, key="C18.valid-alphabet|VALID")
     _codec_structure(ctx, rep, NUM_ALPHA, EXTRA, ENCODING, got)
+    if with_k3:
+        # "under any salt string": the encoder's own table reads (salt[0], EXTRA[salt]) must be guarded — K3 instances of C14 inside the codec
+        from .report import Report
+        from . import secret_flow
+        sub = Report("C14", quiet=True)
+        fns = [f for f in p.all_functions() if f.module.name == JS and f.qualname not in ctx.helpers]
+        _k3(ctx, sub, fns, secret_flow.AV(ctx), {"K3": 0})
+        for o in sub.obligations:
+            rep.ob("C18.table-read-guarded", o["construct"], o["ok"], o["detail"], o["where"], o.get("witness"), key="C18.table-read-guarded|%s" % o["construct"], nontrivial=False)
 
 
 def _codec_structure(ctx, rep, NUM_ALPHA, EXTRA, ENCODING, fixedc):
